@@ -25,7 +25,7 @@ class SendProto(Suite):
             "negative scripts (unknown / non-file / duplicate id) x stream capacity 0..64, read-size schedules; non-trivial = >= 2 requests, distinct")
 
     def gen(self, rng, tier):
-        n = {"quick": 800, "thorough": 20000, "search": 150}[tier]
+        n = {"quick": 1500, "thorough": 20000, "search": 150}[tier]
         ops = []
         for _ in range(n):
             small_reads = rng.random() < 0.3
@@ -44,10 +44,14 @@ class SendProto(Suite):
             regs = [i for i in regs if tree[i]["t"] == "file" or bypath.get(tree[i].get("ln"), {}).get("t") == "file"]
             k = rng.choice([0, 1, max(1, len(regs) // 2), len(regs), len(regs), len(regs), rng.randint(0, len(regs))])
             chosen = rng.sample(regs, min(k, len(regs)))
-            mode = rng.choice(["end", "eager", "mixed", "late"])
+            mode = rng.choice(["end", "eager", "mixed", "late", "burst"])
+            burst_at = rng.randint(0, max(0, len(tree) - 2)) if tree else 0
             reqs = []
             for i in chosen:
-                if mode == "end":
+                if mode == "burst":
+                    # several requests handed over back to back in the middle of the STAT stream
+                    after = burst_at if i <= burst_at else i
+                elif mode == "end":
                     after = -1
                 elif mode == "eager":
                     after = i
@@ -83,6 +87,10 @@ class SendProto(Suite):
             if len(tree) <= 40 and rng.random() < 0.25:
                 # the sender's SendMsg(STAT) returns late: a request racing the STAT stream arrives before the sender got control back
                 opt["linger"] = rng.choice([200, 1000])
+            if neg is None and len(reqs) <= 100 and rng.random() < 0.35:
+                # a single-threaded peer: it sends its requests from its reading loop and reads nothing while a send is pending
+                # (fewer pending requests than the sender's pipeline holds, so that flow control cannot stall it)
+                opt["inline"] = True
             ops.append({"op": "sendproto", "src": {"kind": "mem", "tree": tree}, "reqs": reqs, "opt": opt})
         return ops
 
@@ -340,9 +348,40 @@ class Hostile(Suite):
             "ERR; dirty destinations containing symlinks that point outside, also under the names the receiver itself writes (metadata-only listing, merge mode); non-trivial = script with >= 2 packets, distinct")
 
     def gen(self, rng, tier):
-        n = {"quick": 250, "thorough": 6000, "search": 120}[tier]
+        n = {"quick": 500, "thorough": 6000, "search": 120}[tier]
         ops = []
         for _ in range(n):
+            if rng.random() < 0.08:
+                # a WELL-FORMED stream against a destination whose directories have children named like the sentinels' children: the
+                # stream drops some of those directories and turns others into symlinks that point at the sentinel directories
+                # (what is deleted / replaced must be deleted inside dest, never through the new link)
+                dirs = sorted(rng.sample([b"b", b"c", b"d", b"e", b"k"], rng.randint(2, 4)))
+                dst, stats = [], []
+                for d in dirs:
+                    dst.append({"p": hx(d), "t": "dir", "uid": 0, "gid": 0, "mt": gen.MTIMES[0], "mode": 0o755})
+                    for c in sorted(rng.sample([b"d", b"f", b"g", b"h"], rng.randint(1, 3))):
+                        if c == b"d" and rng.random() < 0.5:
+                            dst.append({"p": hx(d + b"/d"), "t": "dir", "uid": 0, "gid": 0, "mt": gen.MTIMES[0], "mode": 0o755})
+                            dst.append({"p": hx(d + b"/d/g"), "t": "file", "size": 3, "uid": 0, "gid": 0, "mt": gen.MTIMES[0], "mode": 0o644})
+                        else:
+                            dst.append({"p": hx(d + b"/" + c), "t": "file", "size": 3, "uid": 0, "gid": 0, "mt": gen.MTIMES[0], "mode": 0o644})
+                    k = rng.choice(["drop", "drop", "link", "link", "keep", "file"])
+                    if k == "link":
+                        st = gen.rand_stat(rng, d, False)
+                        st.update({"mode": (1 << 27) | 0o777, "size": 0, "dmaj": 0, "dmin": 0,
+                                   "ln": hx(rng.choice([b"/outside", b"/outside/d", b"../sib", b"../../../outside", b"../../../outside/d"]))})
+                        stats.append(st)
+                    elif k == "keep":
+                        stats.append(gen.rand_stat(rng, d, True))
+                    elif k == "file":
+                        st = gen.rand_stat(rng, d, False)
+                        st.update({"mode": 0o644, "size": 0, "ln": "", "dmaj": 0, "dmin": 0})
+                        stats.append(st)
+                for st in stats:
+                    st.setdefault("x", [])
+                script = [{"t": "STAT", "stat": st} for st in stats] + [{"t": "STAT"}]
+                ops.append({"op": "hostile", "script": script, "dst": dst, "answer": True, "opt": {"cap": rng.choice([0, 4, 32]), "seed": rng.randrange(1 << 30)}})
+                continue
             ents = gen.rand_tree(rng, rng.choice([3, 8, 20]), 3)
             stats = []
             for p, d in ents:
